@@ -316,6 +316,27 @@ def inherit(ctx, vb):
         a, b = call[2][0], call[2][1]
         sides = any(x[0] == 'payload' and x[2] == 'Some' for x in walk(a) if isinstance(x, tuple)) and any(x[0] == 'payload' for x in walk(b) if isinstance(x, tuple))
         okn = bool(okty and zipped and every and sides)
+    # both tests are made against the table of the first base itself: the value the lookup of the first base returned, projected,
+    # with nothing substituted for it (the table of "the class that stores the pointer" is a different, shorter table)
+    srcs_bad = []
+    nsrc = 0
+    for g in gs:
+        if g.kind != 'reject':
+            continue
+        st_ = show(g.pred)
+        if not ((cmp_parts(g.pred) and len(find_calls(g.pred, '::len')) == 2) or g in gne or any(g is g2 for g2, _x in gsearch)):
+            continue
+        nsrc += 1
+        e_ = expand(g.fn, g.pred) if not getattr(g, 'lifted_from', None) else g.pred
+        for x in walk(e_):
+            if isinstance(x, tuple) and x and x[0] == 'call':
+                if x[1] in P.fns and not re.search(r'get_optional_region_name_and_vftable$|get_region_name_and_type_definition$|convert_grammar_functions_to_semantic_functions$', x[1]) and \
+                        P.fns[x[1]].kind != 'Closure':
+                    srcs_bad.append(short(x[1]))
+                if re.search(r'Option::<T>::(unwrap_or\w*|or|or_else|map_or\w*|xor|filter|take|replace|get_or_insert\w*)$', x[1]):
+                    srcs_bad.append(short(x[1]))
+    ctx.ob(['C06'], 'R-GUARD', 'G11|against-the-first-base-table', nsrc >= 2 and not srcs_bad,
+           'the length test and the slot comparison use the table that the lookup of the first base returned, nothing substituted for it (%d tests): %s' % (nsrc, sorted(set(srcs_bad))[:3]), where)
     ctx.ob(['C06', 'C16', 'C04'], 'R-GUARD', 'G11|prefix-equal', okn, 'every base slot is compared for inequality with the derived slot in the same position (zip of both lists, unadapted, every iteration) ⇒ Err: %s' % det, gne[0].where() if gne else where)
     # the comparison is the derived PartialEq of Function, whose struct carries the four fields
     adt = P.adts.get(FUNCTION)
